@@ -1067,6 +1067,9 @@ class slice(Stream):
 
     def update(self, x, who=None, metadata=None):
         ret = None
+        if self.end is not None and self.state >= self.end:
+            # already detached; an emission that was in progress can still call us
+            return ret
         if self.state >= self.star and (self.state - self.star) % self.step == 0:
             ret = self._emit(x, metadata=metadata)
         self.state += 1
